@@ -11,6 +11,7 @@ import (
 	"testing"
 	"unicode/utf8"
 
+	"github.com/GuanceCloud/platypus/pkg/parser"
 	"pgregory.net/rapid"
 	"verifharness/conv"
 	"verifharness/evid"
@@ -276,7 +277,9 @@ func judgeString(t rk.Failer, slot, kind, src string, ex expect, ident bool, non
 			rk.Fail(t, slot, rp, "%s spelling denotes %q (% x) but parsed to %q (% x)\nsource: %q", kind, ex.Value, ex.Value, got, got, src)
 		}
 	case vWeak:
-		if nst == 1 {
+		// the weak expectation only applies when the lexer takes the whole spelling as ONE literal token
+		// (a body with quote characters may end the literal early and continue as other tokens or a comment)
+		if nst == 1 && singleLiteralToken(src) {
 			if got, ok := val(); ok && got != ex.Value {
 				rp.Expect = "rejected-or-exact"
 				rk.Fail(t, slot, rp, "%s spelling parsed to a wrong value %q, want rejection or %q\nsource: %q", kind, got, ex.Value, src)
@@ -288,6 +291,24 @@ func judgeString(t rk.Failer, slot, kind, src string, ex expect, ident bool, non
 	if nontrivial {
 		evid.Sample(map[string]any{"kind": kind, "src": src, "expect": []string{"rejected", "accepted", "weak"}[ex.V], "value": ex.Value})
 	}
+}
+
+// singleLiteralToken: the source lexes to exactly three tokens (two for the literal and its partner, one operator) and nothing else.
+func singleLiteralToken(src string) bool {
+	l := parser.Lex(src)
+	var it parser.Item
+	n := 0
+	for i := 0; i <= len(src)+1; i++ {
+		l.NextItem(&it)
+		if it.Typ == parser.EOF {
+			return n == 3
+		}
+		if it.Typ == parser.ERROR || it.Typ == parser.COMMENT {
+			return false
+		}
+		n++
+	}
+	return false
 }
 
 func interesting(body string, q byte) bool {
